@@ -260,8 +260,10 @@ def check(case, stats: Stats) -> None:
         r2 = curies.upgrade_prefix_map({p: u for p, u in shuffled})
         d1 = [dict(prefix=r.prefix, uri_prefix=r.uri_prefix, prefix_synonyms=list(r.prefix_synonyms), uri_prefix_synonyms=list(r.uri_prefix_synonyms), pattern=r.pattern) for r in r1]
         d2 = [dict(prefix=r.prefix, uri_prefix=r.uri_prefix, prefix_synonyms=list(r.prefix_synonyms), uri_prefix_synonyms=list(r.uri_prefix_synonyms), pattern=r.pattern) for r in r2]
-        if d1 != d2:
-            raise Violation(f"upgrade_prefix_map depends on the dictionary order: {d1!r} vs {d2!r}")
+        # the statement fixes which prefix is canonical and that the rest are synonyms - not the order of the synonym list
+        # nor the order of the returned records
+        if norm_records(d1) != norm_records(d2):
+            raise Violation(f"upgrade_prefix_map depends on the dictionary order: {norm_records(d1)!r} vs {norm_records(d2)!r}")
         try:
             convs = {"upgrade": Converter(r1), "upgrade-epm": Converter.from_extended_prefix_map(r2)}
         except ValueError as e:
